@@ -6,6 +6,7 @@ INVARIANT UidUnique
 INVARIANT ParentMirror
 INVARIANT KeyIsId
 INVARIANT OnceEach
+INVARIANT SiblingIds
 INVARIANT Findable
 INVARIANT GetVSound
 PROPERTY RefusedNoop
@@ -26,3 +27,4 @@ CONSTANTS
  UidKey <- JoinDash
  KeyForms = {"id"}
  Dev_KeyUnchecked = FALSE
+ Dev_IdUnchecked = FALSE
